@@ -183,6 +183,32 @@ def holdersOf (l : Ledger) (d : Denom) : List (Addr × Int) :=
 
 def showParty (p : Party) : String := if p.optional then p.addr ++ "?" else p.addr
 
+/-! ### The two queries, as the Go code computes them (not from the dump's other columns)
+
+`queriesOk` compares them with the bank's view; `PvProofs.C09.queries_agree_with_token` proves they
+agree on every invariant state. -/
+
+/-- the `value_owner_address` of the `Scope` query (query_server.go:96 →
+`GetScopeWithValueOwner` → `PopulateScopeValueOwner`, scope.go:107-123): the scope record is read
+from the metadata store; when it is found its value owner is looked up through the bank's
+`DenomOwner`; an error of that lookup and "nobody" both show as the empty string -/
+def queryScopeValueOwner (s : State) (id : ScopeId) : String :=
+  match findScope s id with
+  | none => ""
+  | some _ => match denomOwner s.ledger id with
+    | .ok (some a) => a
+    | _ => ""
+
+/-- the `ValueOwnership` query (query_server.go:618): the scope ids of
+`GetScopesForValueOwner(addr)` — a walk over the balances OF THAT ACCOUNT with the scope-denom
+prefix (bank.go:52); no metadata-store read, no `DenomOwner` -/
+def queryValueOwnership (s : State) (a : Addr) : List ScopeId := (scopesForValueOwner s.ledger a).map (·.2)
+
+/-- the accounts whose `ValueOwnership` answer lists scope `id` (accounts that never received a
+coin have no balances to walk) -/
+def listedBy (s : State) (id : ScopeId) : List Addr :=
+  (dedup (s.ledger.map (·.addr))).filter fun a => (queryValueOwnership s a).contains id
+
 def observeScope (s : State) (id : ScopeId) : ScopeObs :=
   { id := id
     exists_ := hasScope s id
@@ -190,8 +216,8 @@ def observeScope (s : State) (id : ScopeId) : ScopeObs :=
     vo := match denomOwner s.ledger id with | .ok o => o.getD "" | .error _ => "!"
     holders := holdersOf s.ledger id
     supply := Ledger.supply s.ledger id
-    qvo := if hasScope s id then (match denomOwner s.ledger id with | .ok o => o.getD "" | .error _ => "!") else ""
-    listed := (holdersOf s.ledger id).map (·.1)
+    qvo := queryScopeValueOwner s id
+    listed := listedBy s id
     rollup := match findScope s id with | some e => e.rollup | none => false }
 
 def observe (s : State) (ids : List ScopeId) : Obs :=
@@ -205,6 +231,9 @@ def stepInfo (op : Op) (accepted : Bool) : StepInfo :=
   | .migrate _ _ signers => { kind := .msg .migrate, signers, accepted }
   | .send frm _ _ => { kind := .send, signers := [frm], accepted }
   | .mwithdraw _ admin _ _ => { kind := .mwithdraw, signers := [admin], accepted }
+  | .msend frm _ => { kind := .send, signers := [frm], accepted }          -- bank MsgMultiSend: the one input signs
+  | .mtransfer admin _ _ _ => { kind := .mwithdraw, signers := [admin], accepted }  -- marker MsgTransfer: the administrator signs
+  | .fund .. => { kind := .env, signers := [], accepted }
   | .grant .. => { kind := .env, signers := [], accepted }
   | .revoke .. => { kind := .env, signers := [], accepted }
   | .access .. => { kind := .env, signers := [], accepted }
